@@ -20,8 +20,9 @@
 (*              Euler steps of size dt: u_K = (I + dt Dxx)^K u_0.           *)
 (*                                                                         *)
 (* Part B - the life of a test problem object, one action per code step:   *)
-(*   ResolveOptions -> BuildModel -> MakeExact -> MakeDataDist ->          *)
-(*   SampleData -> MakeLikelihood -> Assemble -> GetComponents             *)
+(*   ResolveOptions -> SelectGeometry -> BuildModel -> MakeExact ->        *)
+(*   MakeDataDist -> SampleData -> MakeLikelihood -> Assemble ->           *)
+(*   GetComponents                                                         *)
 (* over the option lattice (problem, sizes, PSF, BC, phantom, noise type,  *)
 (* level, prior, scripted standard-normal draw Z).  Every constructor      *)
 (* argument that has a default is a pair <<given, value>>; the documented  *)
@@ -36,10 +37,25 @@
 (* SameData, SameGeometries, ExactDataIsModelOfExactSolution,              *)
 (* NoiseRelation (data - exactData = NoiseScale(type, level, exactData)    *)
 (* .* Z), LikelihoodNoiseIsStated, PosteriorIsLikPlusPrior.                *)
+(* Part D - the FIELD options of Poisson1D / Heat1D / Abel1D (field_type,  *)
+(* field_params, map / imap, for Abel1D KL_map / KL_imap) as <<given,      *)
+(* value>> pairs resolved by the action SelectGeometry into geometry       *)
+(* OBJECTS of the heap: the base geometry (created from the documented     *)
+(* class of the string, or the caller's Geometry object AS IS) and, when a *)
+(* map is given - whatever the form of field_type -, a Mapped wrapper that *)
+(* refers to the base, the map and the imap.  The model's forward is the   *)
+(* solution operator applied to map(par2fun_base(p)) (exact: integer       *)
+(* parameters, Continuous1D = identity, StepExpansion = piecewise constant,*)
+(* a caller-defined ramp geometry, maps 2x+1 and x^2+1; the sine / cosine  *)
+(* expansions are not rational: structure only).  Invariants               *)
+(* MapGivenIsApplied, GeometryObjectUsedAsIs, FieldGeometryEverywhere,     *)
+(* FieldExactData; named deviation GeometryObjectSkipsMap.                 *)
 (* Named deviations (off in the deciding configurations): VarianceAsStd,   *)
 (* OtherModelInstance, GetComponentsCopiesData, OtherPhantom,              *)
 (* TruthinessDefault (`x = x or default`: a given falsy value is replaced  *)
-(* by the default).                                                        *)
+(* by the default), GeometryObjectSkipsMap (the geometry selection returns *)
+(* a caller's Geometry object before the Mapped wrapping: a map given      *)
+(* together with a geometry object is silently ignored).                   *)
 (*                                                                         *)
 (* Noise with an SNR option (Heat1D, Poisson1D, Abel1D): the docstrings do *)
 (* not define the ratio; the spec states only that ONE scalar sigma scales *)
@@ -204,7 +220,9 @@ PickQ(a, dflt) == IF a[1] /\ ~(Deviation = "TruthinessDefault" /\ FalsyQ(a[2])) 
 PickS(a, dflt) == IF a[1] /\ ~(Deviation = "TruthinessDefault" /\ FalsyS(a[2])) THEN a[2] ELSE dflt
 
 OptQ == {"psfparam", "pparam", "level", "wdata"}          \* numbers: PSF_param (legacy), phantom_param, noise_std / SNR, data
-OptS == {"psf", "phantom", "prior", "exsol"}                \* arrays / names / objects: PSF, phantom, prior, exactSolution
+\* field options (Part D): field_type, field_params, map / KL_map, imap / KL_imap; documented default None
+OptF == {"ftype", "fparams", "fmap", "fimap"}
+OptS == {"psf", "phantom", "prior", "exsol", "src"} \cup OptF   \* arrays / names / objects: PSF, phantom, prior, exactSolution, source, field options
 OptNames == OptQ \cup OptS
 
 ArrayPsfs     == {"ramp", "quad", "sym", "zeros"}           \* custom PSF arrays
@@ -214,7 +232,8 @@ NamedPhantoms == {"gauss", "sinc", "vonmises"}              \* phantom functions
 
 Base == [problem |-> "na", n |-> 0, m |-> 0, psf |-> NotGivenS, psfparam |-> NotGivenQ, bc |-> "na", orient |-> "na",
          phantom |-> NotGivenS, pparam |-> NotGivenQ, noise |-> "na", level |-> NotGivenQ, prior |-> NotGivenS, zpat |-> "zero",
-         exsol |-> NotGivenS, wdata |-> NotGivenQ, wform |-> "na"]
+         exsol |-> NotGivenS, wdata |-> NotGivenQ, wform |-> "na",
+         ftype |-> NotGivenS, fparams |-> NotGivenS, fmap |-> NotGivenS, fimap |-> NotGivenS, src |-> NotGivenS, fcase |-> FALSE]
 
 D1(s, bc, ph, nz, lv, pr, z) ==
     [Base EXCEPT !.problem = "Deconvolution1D", !.n = s[1], !.m = s[2], !.psf = Giv(s[3]), !.bc = bc, !.phantom = ph,
@@ -230,6 +249,85 @@ Noises == {"gaussian", "scaledgaussian"}
 \* <<PSF, phantom>> with an all-zero array in one or both places (shape s)
 ZeroPairs(s) == {<<s[3], "zeros">>, <<"zeros", "ramp">>, <<"zeros", "zeros">>}
 First(S) == CHOOSE s \in S : \A t \in S : s[1] >= t[1]
+
+
+\* ---- Part D: the field options of Poisson1D / Heat1D / Abel1D ---------------------------------------
+\* field_type : None | a documented string | a Geometry OBJECT of the caller (one of each kind)
+StringTypes == {"KL", "KL_Full", "Step", "CustomKL"}
+ObjTypes    == {"objC1D", "objKL", "objStep", "objUser"}     \* Continuous1D, KLExpansion(num_modes = 3), StepExpansion(n_steps = 2), a caller-defined class
+\* field_params : None | {"num_modes": 2} | {"n_steps": 2} | {"trunc_term": 2}
+\* map : None | "affine" x -> 2x+1 | "square" x -> x^2+1;  imap : None | the inverse function ("iaffine", "isquare")
+FunDim(o)       == o.n
+StepsOf(fp)     == IF fp = "n_steps2" THEN 2 ELSE 3                       \* StepExpansion: documented default n_steps = 3
+ModesOf(o, fp)  == IF fp = "num_modes2" THEN 2 ELSE FunDim(o)             \* KLExpansion: num_modes None = all modes
+GRec(kind, own, pardim, steps) == [kind |-> kind, own |-> own, pardim |-> pardim, steps |-> steps]
+\* the base geometry the documentation states for the effective options e: the documented class for a string (created
+\* by the constructor with field_params as keyword arguments), the caller's object AS IS for a Geometry object
+BaseGeom(o, e) ==
+    CASE ~o.fcase             -> GRec("Default", "created", 0, 0)           \* (other problems: nothing is stated here)
+      [] e.ftype = "None"     -> GRec("Continuous1D", "created", FunDim(o), 0)
+      [] e.ftype = "KL"       -> GRec("KLExpansion", "created", ModesOf(o, e.fparams), 0)
+      [] e.ftype = "KL_Full"  -> GRec("KLExpansion_Full", "created", FunDim(o), 0)
+      [] e.ftype = "Step"     -> GRec("StepExpansion", "created", StepsOf(e.fparams), StepsOf(e.fparams))
+      [] e.ftype = "CustomKL" -> GRec("CustomKL", "created", 2, 0)          \* trunc_term = 2
+      [] e.ftype = "objC1D"   -> GRec("Continuous1D", "user", FunDim(o), 0)
+      [] e.ftype = "objKL"    -> GRec("KLExpansion", "user", 3, 0)
+      [] e.ftype = "objStep"  -> GRec("StepExpansion", "user", 2, 2)
+      [] e.ftype = "objUser"  -> GRec("UserRamp", "user", 2, 0)
+\* the classes whose par2fun is exact over the integers
+FieldKnown(g) == g.kind \in {"Continuous1D", "StepExpansion", "UserRamp"}
+\* StepExpansion (docstring): S equidistant steps on [x_1, x_n]; node k lies in step 1 if x <= L/S, in step i if
+\* (i-1) L/S < x <= i L/S  (x measured from x_1, regular grid: x = (k-1) L/(n-1))
+StepIdx(k, n, S) == CHOOSE i \in 1..S : (i = 1 \/ (k - 1) * S > (i - 1) * (n - 1)) /\ (k - 1) * S <= i * (n - 1)
+Par2Fun(g, p, n) ==
+    CASE g.kind = "StepExpansion" -> [k \in 1..n |-> p[StepIdx(k, n, g.steps)]]
+      [] g.kind = "UserRamp"      -> [k \in 1..n |-> p[1] + (k - 1) * p[2]]        \* the caller's class: a ramp
+      [] OTHER                    -> p                                             \* Continuous1D: function values = parameters
+MapF(m, f) == CASE m = "affine" -> [k \in 1..Len(f) |-> 2 * f[k] + 1]
+                [] m = "square" -> [k \in 1..Len(f) |-> f[k] * f[k] + 1]
+                [] OTHER        -> f                                               \* no map
+ImapOf(m) == IF m = "affine" THEN "iaffine" ELSE "isquare"
+\* integer test parameters of length d (all positive: the Poisson conductivity must not vanish)
+FPars(d) == << [i \in 1..d |-> i], [i \in 1..d |-> ((i * i) % 3) + 1], [i \in 1..d |-> d + 1 - i] >>
+\* the solution operators on FUNCTION VALUES, as the replayer instantiates the problems: Poisson1D(dim = n, endpoint = n-1,
+\* source = FSrc): dx = 1; Heat1D(dim = n, endpoint = n+1, max_time = 1): dx = 1, two explicit steps with r = 1/2
+\* (read back from the public time grid by the replayer); Abel1D(dim = n, endpoint = 2): h = 2/n, irrational weights
+\* (the replayer applies the positive square roots of AbelW2 to the field)
+FSrc(n)   == [i \in 1..n |-> IF i = 1 THEN 3 ELSE 1 - i]
+FHeatR    == Q(1, 2)
+FHeatK    == 2
+OpKnown(o) == o.fcase /\ o.problem \in {"Poisson1D", "Heat1D"}
+OpQ(o, f) == IF o.problem = "Poisson1D" THEN PoisSolve(f, FSrc(FunDim(o) - 1), One) ELSE HeatFinal(f, FHeatR, FHeatK)
+\* following the references of the heap h: the function values the geometry called name produces for the parameters p
+GeomField(h, name, p, n) == LET g == h[name]
+                            IN IF g.kind = "Mapped" THEN MapF(g.map, Par2Fun(h[g.base], p, n)) ELSE Par2Fun(g, p, n)
+GeomBaseName(h, name)    == IF h[name].kind = "Mapped" THEN h[name].base ELSE name
+\* the parameter dimension (prior, test points)
+ParDim(o, e) == IF o.fcase THEN BaseGeom(o, e).pardim ELSE
+                CASE o.problem = "Deconvolution2D" -> o.n * o.n [] o.problem = "WangCubic" -> 2 [] OTHER -> o.n
+
+FOpt(p, n, ft, mp, ex) ==
+    [Base EXCEPT !.problem = p, !.n = n, !.noise = "snr", !.level = Giv(R(10)), !.zpat = "alt", !.exsol = ex, !.fcase = TRUE,
+                 !.ftype = ft[1], !.fparams = ft[2], !.fmap = mp[1], !.fimap = mp[2],
+                 !.src = IF p = "Poisson1D" THEN Giv("ints") ELSE NotGivenS]
+\* <<field_type, field_params>> as documented per class: Poisson1D / Heat1D list the strings and field_params; Abel1D
+\* documents "str or Geometry" only (strings "KL" / "Step" as in the sibling classes, no field_params, no KL_Full)
+FTypes(p) ==
+       {<<NotGivenS, NotGivenS>>, <<Giv("KL"), NotGivenS>>, <<Giv("Step"), NotGivenS>>}
+  \cup {<<Giv(t), NotGivenS>> : t \in ObjTypes}
+  \cup (IF p = "Abel1D" THEN {}
+        ELSE {<<Giv("KL"), Giv("num_modes2")>>, <<Giv("Step"), Giv("n_steps2")>>, <<Giv("KL_Full"), NotGivenS>>,
+              <<Giv("CustomKL"), Giv("trunc2")>>})
+\* <<map, imap>>: not given, given with its inverse, given without inverse (imap = None is the documented default)
+FMaps == {<<NotGivenS, NotGivenS>>, <<Giv("affine"), Giv("iaffine")>>, <<Giv("square"), Giv("isquare")>>, <<Giv("square"), NotGivenS>>}
+FieldOptsAll ==
+    UNION { { FOpt(p, n, ft, mp, ex) : ft \in FTypes(p), mp \in FMaps,
+                                       ex \in (IF p = "Abel1D" THEN {NotGivenS} ELSE {NotGivenS, Giv("sq")}) } :
+            p \in {"Poisson1D", "Heat1D", "Abel1D"}, n \in (IF Size = 2 THEN {4, 5} ELSE {4}) }
+\* (the tiny lattice of the deviation runs keeps a geometry object and a string, with and without map)
+FieldOpts == IF Size # 0 THEN FieldOptsAll
+             ELSE {o \in FieldOptsAll : o.ftype \in {Giv("objStep"), Giv("Step")} /\ ~o.fparams[1] /\ ~o.exsol[1]
+                                        /\ o.fmap \in {NotGivenS, Giv("square")} /\ (o.fmap[1] => o.fimap[1])}
 
 \* the option lattice: non-falsy values of every option ...
 MainOpts ==
@@ -273,7 +371,7 @@ FalsyOptsAll ==
 FalsyOpts == IF Size # 0 THEN FalsyOptsAll
              ELSE {o \in FalsyOptsAll : \/ o.problem = "WangCubic"
                                         \/ (o.problem = "Deconvolution1D" /\ o.bc = "zero" /\ ~o.prior[1] /\ ~o.pparam[1] /\ o.level[1])}
-Opts == MainOpts \cup FalsyOpts
+Opts == MainOpts \cup FalsyOpts \cup FieldOpts
 
 IsDeconv(o)  == o.problem \in {"Deconvolution1D", "Deconvolution1D_legacy", "Deconvolution2D"}
 IsSnr(o)     == o.noise = "snr"
@@ -298,6 +396,7 @@ DefaultOf(o, k) ==
       [] k = "psfparam" -> IF o.psf = Giv("lsinc") THEN R(15) ELSE IF o.psf = Giv("lvonmises") THEN R(5) ELSE R(10)
       [] k = "phantom"  -> IF o.problem \in {"Deconvolution1D", "Deconvolution1D_legacy"} THEN "sinc" ELSE "builtin"
       [] k = "psf"      -> IF o.problem = "Deconvolution1D_legacy" THEN "lgauss" ELSE "builtin"
+      [] k \in OptF     -> "None"                     \* field_type = None, field_params = None, map = None, imap = None
       [] OTHER          -> "builtin"                  \* the problem's built-in PSF / phantom / prior / exact solution
 Resolve(o, PQ(_, _), PS(_, _)) ==
     [k \in OptNames |-> IF k \in OptQ THEN PQ(o[k], DefaultOf(o, k)) ELSE PS(o[k], DefaultOf(o, k))]
@@ -348,9 +447,10 @@ YVec(o, A, x) == IF IsDeconv(o) THEN IMV(A, x)
 Stated(o, e) == [kind |-> IF o.noise = "gaussian" THEN "const" ELSE IF o.noise = "scaledgaussian" THEN "absdata" ELSE "snr", v |-> e.level]
 ScaleVec(sc, y) == F([i \in 1..Len(y) |-> IF sc.kind = "const" THEN sc.v ELSE RMul(sc.v, R(IAbs(y[i])))])
 
+\* (the built-in prior lives on the PARAMETERS: its dimension is the parameter dimension of the domain geometry)
 PriorOf(o, e) == IF e.prior = "builtin"
-                 THEN [mean |-> IF IsWang(o) THEN <<1, 0>> ELSE [i \in 1..DomDim(o) |-> 0], var |-> One, geom |-> "default"]
-                 ELSE [mean |-> [i \in 1..DomDim(o) |-> 1], var |-> R(4), geom |-> "default"]              \* "ones4"
+                 THEN [mean |-> IF IsWang(o) THEN <<1, 0>> ELSE [i \in 1..ParDim(o, e) |-> 0], var |-> One, geom |-> "default"]
+                 ELSE [mean |-> [i \in 1..ParDim(o, e) |-> 1], var |-> R(4), geom |-> "default"]              \* "ones4"
 
 \* admissible option combinations (everything else raises or is meaningless on the documented interface)
 ValidOpt(o) ==
@@ -428,6 +528,7 @@ AK == AKnown(opt, D)
 XK == XKnown(opt, D)
 YK == YKnown(opt, D)
 DK == DKnown(opt, D)
+FYK == OpKnown(opt) /\ XK          \* exact data of a field problem known exactly (given integer exact solution)
 \* the effective options of the constructed problem
 U  == heap.used
 
@@ -437,13 +538,36 @@ ResolveOptions ==
     /\ heap' = [used |-> Impl(opt)]
     /\ pc' = "resolved" /\ UNCHANGED <<opt, prob, comps>>
 
-BuildModel ==
+\* "Set up geometries for model": the base geometry is the caller's object ("ugeom", as is) or is created from the
+\* field type ("gbase"); if a map is given the domain geometry is a NEW Mapped geometry ("gmapped") that refers to the base,
+\* the map and the imap - whatever the form of field_type.  heap.sel = the name of the geometry the model gets.
+\* Named deviation GeometryObjectSkipsMap: a Geometry object is returned before the wrapping.
+SelectGeometry ==
     /\ pc = "resolved"
-    /\ heap' = [used   |-> U,
-                model  |-> [A |-> IF AK THEN DeconvMat(opt, U, opt.bc) ELSE <<>>, tag |-> "documented",
-                            dgeom |-> "gdom", rgeom |-> "grng"],
-                model2 |-> [A |-> IF AK THEN DeconvMat(opt, U, OtherBC(opt.bc)) ELSE <<>>, tag |-> "other",
-                            dgeom |-> "gdom", rgeom |-> "grng"]]
+    /\ LET B      == BaseGeom(opt, U)
+           bn     == IF B.own = "user" THEN "ugeom" ELSE "gbase"
+           mapped == U.fmap # "None" /\ ~(Deviation = "GeometryObjectSkipsMap" /\ U.ftype \in ObjTypes)
+       IN heap' = [k \in {"used", "sel", bn} \cup (IF mapped THEN {"gmapped"} ELSE {}) |->
+                     IF k = "used" THEN U
+                     ELSE IF k = "sel" THEN (IF mapped THEN "gmapped" ELSE bn)
+                     ELSE IF k = bn THEN B
+                     ELSE [kind |-> "Mapped", own |-> "created", pardim |-> B.pardim, base |-> bn, map |-> U.fmap, imap |-> U.fimap]]
+    /\ pc' = "geom_selected" /\ UNCHANGED <<opt, prob, comps>>
+
+\* field problems: the model's action on the parameters FPars follows the references of ITS domain geometry:
+\* fld = the function values, fwd = the solution operator applied to them (Abel1D: irrational weights, see OpQ)
+ModelRec(A, tag) ==
+    LET dn == heap.sel  B == heap[GeomBaseName(heap, dn)]  known == opt.fcase /\ FieldKnown(B)
+        ps == FPars(B.pardim)
+        fl == IF known THEN F([i \in 1..Len(ps) |-> GeomField(heap, dn, ps[i], FunDim(opt))]) ELSE <<>>
+    IN [A |-> A, tag |-> tag, dgeom |-> dn, rgeom |-> "grng", fld |-> fl,
+        fwd |-> IF known /\ OpKnown(opt) THEN F([i \in 1..Len(ps) |-> OpQ(opt, fl[i])]) ELSE <<>>]
+BuildModel ==
+    /\ pc = "geom_selected"
+    /\ heap' = [k \in DOMAIN heap \cup {"model", "model2"} |->
+                  IF k = "model" THEN ModelRec(IF AK THEN DeconvMat(opt, U, opt.bc) ELSE <<>>, "documented")
+                  ELSE IF k = "model2" THEN ModelRec(IF AK THEN DeconvMat(opt, U, OtherBC(opt.bc)) ELSE <<>>, "other")
+                  ELSE heap[k]]
     /\ pc' = "model_built" /\ UNCHANGED <<opt, prob, comps>>
 
 \* exact solution and exact data = model(exact solution); WangCubic has neither
@@ -453,8 +577,10 @@ MakeExact ==
            xy == IF Deviation = "OtherPhantom" THEN Phantom(IF XName(opt, U) = "ramp" THEN "sq" ELSE "ramp", DomDim(opt)) ELSE x
        IN heap' = IF IsWang(opt) THEN heap
                   ELSE [k \in DOMAIN heap \cup {"xex", "yex"} |->
-                          IF k = "xex" THEN [vals |-> IF XK THEN x ELSE <<>>, geom |-> "gdom"]
+                          IF k = "xex" THEN [vals |-> IF XK THEN x ELSE <<>>, geom |-> heap.model.dgeom]
                           ELSE IF k = "yex" THEN [vals |-> IF YK THEN YVec(opt, heap.model.A, xy) ELSE <<>>,
+                                                  \* field problems: the exact solution is FUNCTION VALUES (no map, no par2fun)
+                                                  fvals |-> IF FYK THEN OpQ(opt, xy) ELSE <<>>,
                                                   model |-> "model", x |-> IF Deviation = "OtherPhantom" THEN "other" ELSE "xex",
                                                   geom |-> "grng"]
                           ELSE heap[k]]
@@ -501,7 +627,8 @@ MakeLikelihood ==
 \* BayesianProblem(likelihood, prior): the posterior refers to both; exact values and info string are stored
 Assemble ==
     /\ pc = "lik_made"
-    /\ heap' = [k \in DOMAIN heap \cup {"post"} |-> IF k = "post" THEN [lik |-> "lik", prior |-> "prior", geom |-> "gdom"] ELSE heap[k]]
+    /\ heap' = [k \in DOMAIN heap \cup {"post"} |->
+                  IF k = "post" THEN [lik |-> "lik", prior |-> "prior", geom |-> heap[heap.lik.model].dgeom] ELSE heap[k]]
     /\ prob' = [target |-> "post",
                 exactSolution |-> IF IsWang(opt) THEN "none" ELSE "xex",
                 exactData |-> IF IsWang(opt) THEN "none" ELSE "yex",
@@ -521,7 +648,7 @@ GetComponents ==
                  exactSolution |-> prob.exactSolution, exactData |-> prob.exactData]
     /\ pc' = "handed" /\ UNCHANGED <<opt, heap, prob>>
 
-Next == ResolveOptions \/ BuildModel \/ MakeExact \/ MakeDataDist \/ SampleData \/ MakeLikelihood \/ Assemble \/ GetComponents
+Next == ResolveOptions \/ SelectGeometry \/ BuildModel \/ MakeExact \/ MakeDataDist \/ SampleData \/ MakeLikelihood \/ Assemble \/ GetComponents
         \/ (pc \in {"model", "handed"} /\ UNCHANGED vars)
 Spec == Init /\ [][Next]_vars
 
@@ -558,6 +685,40 @@ SameGeometries ==
     Done => /\ Compat(heap[PPrior].geom, heap[PModel].dgeom) /\ heap[PPost].geom = heap[PModel].dgeom
             /\ (~IsWang(opt) => heap.xex.geom = heap[PModel].dgeom /\ heap.yex.geom = heap[PModel].rgeom)
             /\ Compat(heap[PData].geom, heap[PModel].rgeom)
+\* ---- Part D: the field options ----
+\* a map that is given is applied - for EVERY form of field_type: the model's domain geometry is the Mapped wrapper of the
+\* stated base geometry with the given map and imap (and is the base itself when no map is given), and the model's
+\* forward is the solution operator applied to map(par2fun_base(p))
+MapGivenIsApplied ==
+    (Done /\ opt.fcase) =>
+        LET dn == heap[PModel].dgeom  g == heap[dn]  B == BaseGeom(opt, D)  ps == FPars(B.pardim)
+        IN /\ (D.fmap # "None" => g.kind = "Mapped" /\ g.map = D.fmap /\ g.imap = D.fimap /\ heap[g.base] = B /\ g.pardim = B.pardim)
+           /\ (D.fmap = "None" => g = B)
+           /\ (FieldKnown(B) =>
+                 \A i \in 1..Len(ps) :
+                    LET f == MapF(D.fmap, Par2Fun(B, ps[i], FunDim(opt)))
+                    IN /\ heap[PModel].fld[i] = f
+                       /\ (OpKnown(opt) => heap[PModel].fwd[i] = OpQ(opt, f)))
+\* a Geometry object given as field_type is the base AS IS (the caller's object, not a re-created one); a string / None
+\* makes the constructor create the documented class with field_params
+GeometryObjectUsedAsIs ==
+    (Done /\ opt.fcase) =>
+        LET bn == GeomBaseName(heap, heap[PModel].dgeom)
+        IN /\ (D.ftype \in ObjTypes => bn = "ugeom" /\ heap[bn].own = "user")
+           /\ (D.ftype \notin ObjTypes => bn = "gbase" /\ heap[bn].own = "created")
+           /\ heap[bn] = BaseGeom(opt, D)
+\* the one (mapped) domain geometry everywhere: posterior, exact solution, and the prior has its parameter dimension
+FieldGeometryEverywhere ==
+    (Done /\ opt.fcase) =>
+        LET dn == heap[PModel].dgeom
+        IN /\ heap[PPost].geom = dn /\ heap.xex.geom = dn
+           /\ heap[heap.ddist.model].dgeom = dn /\ heap[heap.yex.model].dgeom = dn
+           /\ Len(heap[PPrior].mean) = heap[dn].pardim
+\* exact data = solution operator applied to the exact solution taken as function values
+FieldExactData ==
+    (Done /\ FYK) => /\ heap.yex.fvals = OpQ(opt, XVec(opt, D))
+                     /\ heap.yex.x = "xex" /\ heap.yex.model = PModel
+
 \* exact data = (the problem's model)(exact solution)
 ExactDataIsModelOfExactSolution ==
     Done /\ ~IsWang(opt) =>
@@ -591,8 +752,8 @@ QuadLikStated(x) ==
          IN F([i \in 1..Len(y) |-> RDiv(RSub(RAdd(R(y[i]), RMul(s[i], R(Z[i]))), R(mu[i])), s[i])])
 QuadPriorStated(x) == QuadOf(PriorOf(opt, D), x)
 TestPts == IF IsWang(opt) THEN {<<0, 0>>, <<1, 0>>, <<1, 2>>, <<-1, 1>>}
-           ELSE {[i \in 1..DomDim(opt) |-> 0], [i \in 1..DomDim(opt) |-> 1], Phantom("sq", DomDim(opt)),
-                 [i \in 1..DomDim(opt) |-> IF i % 2 = 1 THEN 2 ELSE -1]}
+           ELSE LET pd == ParDim(opt, D)
+                IN {[i \in 1..pd |-> 0], [i \in 1..pd |-> 1], Phantom("sq", pd), [i \in 1..pd |-> IF i % 2 = 1 THEN 2 ELSE -1]}
 PosteriorIsLikPlusPrior ==
     (Done /\ (DK \/ IsWang(opt))) =>
         \A x \in TestPts : QuadLik(PLik, x) = QuadLikStated(x) /\ QuadPrior(PPrior, x) = QuadPriorStated(x)
@@ -616,6 +777,17 @@ EmitProblem ==
          Z |-> heap[PData].Z, scale |-> heap[PLik].scale, svec |-> heap[PLik].svec, data |-> heap[PData].vals,
          prior_mean |-> heap[PPrior].mean, prior_var |-> heap[PPrior].var,
          info |-> [exactSolution |-> comps.exactSolution # "none", exactData |-> comps.exactData # "none", infoString |-> prob.infoString],
+         field |-> IF ~opt.fcase THEN [fcase |-> FALSE]
+                   ELSE LET B == BaseGeom(opt, D)  dn == heap[PModel].dgeom
+                        IN [fcase |-> TRUE, fundim |-> FunDim(opt), pardim |-> B.pardim, base |-> B,
+                            \* Abel1D documents the type "str or Geometry" only: the class a string creates is not asserted
+                            basedoc |-> ~(opt.problem = "Abel1D" /\ D.ftype \in StringTypes),
+                            mapped |-> heap[dn].kind = "Mapped", map |-> D.fmap, imap |-> D.fimap,
+                            fknown |-> FieldKnown(B), opknown |-> OpKnown(opt), pars |-> FPars(B.pardim),
+                            fld |-> heap[PModel].fld, fwd |-> heap[PModel].fwd,
+                            fyknown |-> FYK, fy |-> IF comps.exactData # "none" THEN heap.yex.fvals ELSE <<>>,
+                            heat |-> [r |-> FHeatR, K |-> FHeatK],
+                            W2 |-> IF opt.problem = "Abel1D" THEN AbelW2(opt.n, Q(2, opt.n)) ELSE <<>>],
          same |-> <<<<"components.model", "problem.model">>, <<"problem.model", "likelihood.model">>,
                     <<"posterior.likelihood", "problem.likelihood">>, <<"posterior.prior", "problem.prior">>,
                     <<"components.data", "problem.data">>, <<"problem.data", "likelihood.data">>, <<"posterior.data", "problem.data">>,
